@@ -4,7 +4,7 @@ Unit: Interpreter.execute_once (_create_steps, _apply_step, _stabilize, _create_
 _sort_transitions) and MacroStep/MicroStep, through the public API.  Every state has entry/exit
 probes, every transition an action probe that may send an event.  Symbolic scalars: one guard bit per
 (transition, step).  Solver-enumerated: chart (six kinds, free targets), naming scheme (name order
-decoupled from declaration order and depth), events.  Oracle: (a) the probe log of a macro step
+decoupled from declaration order and depth), events, construction (direct or by editing with move_state).  Oracle: (a) the probe log of a macro step
 equals the log predicted from the returned micro steps and the configuration is their fold; (b) order
 laws recomputed from the generated arrays: exit set/innermost-first, entry path/outermost-first,
 transitions by (-depth(source), source name), stabilisation before the next transition, orthogonal
